@@ -4,10 +4,10 @@ import CssVerif.Model.NumF64
 
 Hand transcription of
 
-* `cssutils/css/value.py:341-478`    `ColorValue._setCssText`: the grammar (as a derived recursive parser over the
+* `cssutils/css/value.py:344-485`    `ColorValue._setCssText`: the grammar (as a derived recursive parser over the
   token list: `FUNCTION component (','? component){2|3} ')'`), hash / keyword / function channels
-* `cssutils/css/value.py:1003`, `cssutils/prodparser.py:701`   `reHexcolor`
-* `cssutils/serialize.py:1115-1140`  `do_css_ColorValue`, `do_css_CSSFunction`
+* `cssutils/css/value.py:1016`, `cssutils/prodparser.py:702`   `reHexcolor`
+* `cssutils/serialize.py:1111-1133`  `do_css_ColorValue`, `do_css_CSSFunction`
 * CPython `colorsys.hls_to_rgb` as exact rational arithmetic (the implementation computes it on floats; the
   correspondence accepts either neighbour when `255·channel` is exactly half-way)
 
@@ -51,7 +51,7 @@ inductive ColorErr where
   | keyError
 deriving DecidableEq, Repr, Inhabited
 
-/-- `value.py:408-419`: `len(v) == 4` → `int(2 * v[i], 16)`, else `int(v[1:3], 16)` … -/
+/-- `value.py:403-414`: `len(v) == 4` → `int(2 * v[i], 16)`, else `int(v[1:3], 16)` … -/
 def hashChannels (v : Cps) : Except ColorErr Rgba :=
   match v with
   | [_, a, b, c] =>
@@ -121,7 +121,7 @@ def parseMore : Nat → List CTok → Option (List CItem × List CTok)
       | none => none
       | some (l, rest') => some ((if withComma then [CItem.comma, c] else [c]) ++ l, rest')
 
-/-- `noalp` / `witha` (`value.py:366-393`); the function name test is on `normalize(v)` -/
+/-- `noalp` / `witha` (`value.py:369-392`); the function name test is on `normalize(v)` -/
 def parseColorFunc (ts : List CTok) : Option (List CItem) :=
   match skipS ts with
   | .func v :: t =>
@@ -175,7 +175,7 @@ def hlsToRgb (h l s : Rat) : Rat × Rat × Rat :=
   let m1 := 2 * l - m2
   (hlsV m1 m2 (h + 1 / 3), hlsV m1 m2 h, hlsV m1 m2 (h - 1 / 3))
 
-/-- the loop `for item in seq` (`value.py:425-447`): `raw` and `check` -/
+/-- the loop `for item in seq` (`value.py:420-442`): `raw` and `check` -/
 def collectRaw (hsl : Bool) : List CItem → List Rat × Cps
   | [] => ([], [])
   | .comp v :: t =>
@@ -190,7 +190,7 @@ def lookupChecks (name : Cps) : List (Cps × List Cps) → Option (List Cps)
   | [] => none
   | (n, l) :: t => if n = name then some l else lookupChecks name t
 
-/-- `value.py:421-478` for `'FUNCTION' == t`. Second component: some `255·channel` of an `hsl` colour is a tie -/
+/-- `value.py:416-483` for `'FUNCTION' == t`. Second component: some `255·channel` of an `hsl` colour is a tie -/
 def funcChannels (items : List CItem) : Except ColorErr (Rgba × Bool) :=
   match items with
   | .func name :: rest =>
@@ -218,7 +218,7 @@ def funcChannels (items : List CItem) : Except ColorErr (Rgba × Bool) :=
 
 /-! ## serializing a colour -/
 
-/-- `do_css_CSSFunction` over the items (`serialize.py:1128-1140`) -/
+/-- `do_css_CSSFunction` over the items (`serialize.py:1122-1133`) -/
 def fmtItems (ops : NumOps) (p : Prefs) : List CItem → List Cps → Except Err (List Cps)
   | [], out => .ok out
   | .func name :: t, out => fmtItems ops p t (outAppend p out name false .function)
